@@ -1350,13 +1350,16 @@ func genericWorlds(th bool) []*World {
 		}
 	}
 	if th {
-		// every script of the grammar × (first four spec shapes × all 16 meta modes  ∪  every other spec shape × one
+		// every script of the grammar × (first four spec shapes × 10 meta modes (3×3 + clash/clash)  ∪  every other spec shape × one
 		// diagonal meta mode, rotating): label / annotation actions do not look at the spec, spec actions not at metadata
 		for si, spc := range specs {
 			for l := range labelModes {
 				for a := range annotationModes {
 					if si >= 4 && (l != a || l != si%3) {
 						continue
+					}
+					if (l == 3) != (a == 3) {
+						continue // the "clash" modes only together
 					}
 					for s := range specActions {
 						for la := range labelActions {
